@@ -117,16 +117,7 @@ func checkC11(r *Run) {
 				continue
 			}
 			nClose++
-			inOnce := false
-			if fn.Parent() != nil {
-				eachInstr(fn.Parent(), func(in ssa.Instruction) {
-					if c, ok := in.(*ssa.Call); ok && calleeName(&c.Call) == "(*sync.Once).Do" {
-						if mc, ok := c.Call.Args[1].(*ssa.MakeClosure); ok && mc.Fn == fn {
-							inOnce = true
-						}
-					}
-				})
-			}
+			inOnce := runsOnlyUnderOnce(p, fn)
 			r.Check(inOnce, "close-once", fnName(fn)+": close(conn.closed) under sync.Once", fn.Pos(), "conn.closed can be closed twice (panic: close of closed channel)")
 		}
 		for _, op := range chanOps(fn) {
@@ -211,7 +202,10 @@ func checkC11(r *Run) {
 
 	// G. dispatcher bounds
 	if h := p.Fn("p9p:(sessionHandler).Handle"); h != nil {
-		n := dischargeBounds(r, h, "bounds", nil)
+		n := 0
+		for _, f := range p.withHelpers(h, 1) {
+			n += dischargeBounds(r, f, "bounds", nil)
+		}
 		r.Floor("bounds", n, 2, "slice/make obligations in the dispatcher")
 	}
 
@@ -339,20 +333,27 @@ func c11CancelAll(r *Run, p *Prog) {
 		if !ok {
 			return
 		}
-		mc, ok := d.Call.Value.(*ssa.MakeClosure)
-		if !ok {
-			return
-		}
+		var cl *ssa.Function
 		captures := false
-		for _, b := range mc.Bindings {
-			if tags != nil && b == ssa.Value(tags) {
-				captures = true
+		if mc, ok := d.Call.Value.(*ssa.MakeClosure); ok {
+			for _, b := range mc.Bindings {
+				if tags != nil && b == ssa.Value(tags) {
+					captures = true
+				}
 			}
+			cl = mc.Fn.(*ssa.Function)
+		} else if g := staticCallee(&d.Call); g != nil && g.Blocks != nil {
+			// the loop moved into a helper that is handed the table (defer tags.cancelAll())
+			for _, a := range d.Call.Args {
+				if strings.Contains(shortType(a.Type()), "reqMap") {
+					captures = true
+				}
+			}
+			cl = g
 		}
-		if !captures || d.Block().Index != 0 {
+		if cl == nil || !captures || d.Block().Index != 0 {
 			return
 		}
-		cl := mc.Fn.(*ssa.Function)
 		hasRange, hasCancel := false, false
 		eachInstr(cl, func(in2 ssa.Instruction) {
 			switch x := in2.(type) {
@@ -709,4 +710,67 @@ func onlyTerminationChannelsClosed(r *Run, fns []*ssa.Function, rule string) {
 		}
 	}
 	_ = n
+}
+
+// runsOnlyUnderOnce: fn is executed only as the function handed to (*sync.Once).Do — a closure literal passed to it,
+// or a method whose only use in the package is as a bound method value passed to it.
+func runsOnlyUnderOnce(p *Prog, fn *ssa.Function) bool {
+	if fn.Parent() != nil {
+		ok := false
+		eachInstr(fn.Parent(), func(in ssa.Instruction) {
+			if c, isC := in.(*ssa.Call); isC && calleeName(&c.Call) == "(*sync.Once).Do" {
+				if mc, isMC := c.Call.Args[1].(*ssa.MakeClosure); isMC && mc.Fn == fn {
+					ok = true
+				}
+			}
+		})
+		return ok
+	}
+	// a named function: every use is a plain static call from a function that itself runs only under the Once …
+	if sites, exact := p.staticCallSites(fn); exact && len(sites) > 0 {
+		all := true
+		for _, c := range sites {
+			if c.Parent() == fn || !runsOnlyUnderOnce(p, c.Parent()) {
+				all = false
+			}
+		}
+		if all {
+			return true
+		}
+	}
+	// … or every reference is a bound-method closure handed to once.Do
+	nRef, ok := 0, true
+	for _, f := range p.FuncsOfPkg("p9p") {
+		eachInstr(f, func(in ssa.Instruction) {
+			// direct uses of fn
+			for _, op := range in.Operands(nil) {
+				if op != nil && *op == ssa.Value(fn) {
+					nRef++
+					ok = false // called or referenced directly
+				}
+			}
+			// bound method wrappers
+			mc, isMC := in.(*ssa.MakeClosure)
+			if !isMC {
+				return
+			}
+			w, isF := mc.Fn.(*ssa.Function)
+			if !isF || w.Synthetic == "" || w.Object() == nil || w.Object() != fn.Object() {
+				return
+			}
+			nRef++
+			passed := false
+			for _, rf := range referrers(mc) {
+				if c, isC := rf.(*ssa.Call); isC && calleeName(&c.Call) == "(*sync.Once).Do" && len(c.Call.Args) == 2 && c.Call.Args[1] == ssa.Value(mc) {
+					passed = true
+				} else {
+					ok = false
+				}
+			}
+			if !passed {
+				ok = false
+			}
+		})
+	}
+	return ok && nRef > 0
 }
